@@ -379,7 +379,8 @@ def run_c06(ctx):
     jb, _ = _jobs_from(scen.asset_burst, 'C06b', ctx['seed'], max(4, n // 4))
     jo, _ = _jobs_from(scen.asset_overwrite_back, 'C06o', ctx['seed'], max(4, n // 4))
     jv, _ = _jobs_from(scen.asset_overtake, 'C06v', ctx['seed'], _tier(ctx, 3, 24))
-    jobs = pc.corpus_jobs(['S7_*.scn', 'S12_*.scn', 'S26*.scn', 'S31_*.scn']) + pc.generated_jobs('C06', ctx['seed'], n, ['assets']) + jj + jb + jo + jv
+    jt, _ = _jobs_from(scen.textured_material, 'C06t', ctx['seed'], _tier(ctx, 4, 40))
+    jobs = pc.corpus_jobs(['S7_*.scn', 'S12_*.scn', 'S26*.scn', 'S31_*.scn']) + pc.generated_jobs('C06', ctx['seed'], n, ['assets']) + jj + jb + jo + jv + jt
     metas = {name: _c06_meta(text) for name, text in jobs}
 
     def orc(tr, origin):
@@ -480,11 +481,14 @@ def run_c09(ctx):
     # non-conflicting histories: exact cost per operation (no echo at all)
     jp, _ = _jobs_from(scen.parents_clean, 'C09p', ctx['seed'], max(8, n // 4))
     jv, _ = _jobs_from(scen.values_clean, 'C09v', ctx['seed'], max(8, n // 4), family=[0, 1, 2, 3, 4, 5, 6])
+    jt, _ = _jobs_from(scen.textured_material, 'C09t', ctx['seed'], max(6, n // 6))
     tight = {name for name, _ in jp + jv}
-    jobs = jobs + jp + jv
+    atight = {name for name, _ in jt}
+    jobs = jobs + jp + jv + jt
 
     def orc(tr, origin):
-        return _c09_oracle(tr, origin) + (oracles.c09_tight(tr, origin) if origin.get('name') in tight else [])
+        return (_c09_oracle(tr, origin) + (oracles.c09_tight(tr, origin) if origin.get('name') in tight else [])
+                + (oracles.c09_assets_tight(tr, origin) if origin.get('name') in atight else []))
     out = pc.run_scenarios('C09', ctx, jobs, [orc], nontrivial=pc.received_kinds)
     nrep, nskip = _abspar(out)
     out['opstats']['parent_model_replays'] = nrep
@@ -572,12 +576,13 @@ def run_c17(ctx):
     n = _tier(ctx, 24, 300)
     gj, metas = _jobs_from(scen.values_clean, 'C17', ctx['seed'], n, family=[2, 3, 4, 5, 6])
     gp, _ = _jobs_from(scen.companions_present, 'C17p', ctx['seed'], max(6, n // 4))
-    jobs = pc.corpus_jobs(['S2_*.scn', 'S5_*.scn']) + gj + gp + pc.generated_jobs('C17f', ctx['seed'], n // 3, ['values'], types=[2, 3, 4, 5, 6])
+    gr, _ = _jobs_from(scen.rewrite_soon, 'C17r', ctx['seed'], max(8, n // 3))
+    jobs = pc.corpus_jobs(['S2_*.scn', 'S5_*.scn']) + gj + gp + gr + pc.generated_jobs('C17f', ctx['seed'], n // 3, ['values'], types=[2, 3, 4, 5, 6])
 
     def conv(tr, origin):
         # convergence of the replicated values is demanded only of the drain-separated histories
         return oracles.c02_values(tr, origin) if not origin.get('name', '').startswith('C17f') else []
-    out = pc.run_scenarios('C17', ctx, jobs, [oracles.c17_companions, oracles.c17_present_untouched, oracles.panics, conv], nontrivial=pc.received_kinds)
+    out = pc.run_scenarios('C17', ctx, jobs, [oracles.c17_companions, oracles.c17_present_untouched, oracles.no_phantom_components, oracles.panics, conv], nontrivial=pc.received_kinds)
     return pc.make_result('C17', ctx, out, 'frames of histories writing Transform / Visibility / PointLight / SpotLight / DirectionalLight on synchronized entities from owners and other peers (drain-separated writers: values must converge; free-form: companions only), with further writes at every frame offset; companions checked after every frame; non-trivial = distinct (scenario, receiver, kind, key) received')
 
 
